@@ -476,10 +476,12 @@ func c06Body(c *core.Ctx) {
 		c06Linear(c)
 		return
 	}
-	n := c.Pick(400, 20000)
+	// thorough: 15x / 15x the sequences of quick at twice the length (an hour at 50x; the
+	// marginal sequence finds nothing the first thousands did not)
+	n := c.Pick(400, 6000)
 	nops := c.Pick(30, 60)
 	if c.Mode == "race" {
-		n = c.Pick(40, 2000)
+		n = c.Pick(40, 600)
 	}
 	base := 0
 	if c.Mode == "race" {
